@@ -78,6 +78,22 @@ func (m *Model) NilableASTFields() *nilableInfo {
 					}
 					escapes = append(escapes, r)
 				}
+				// a helper that is handed the fresh node and stores a field on every path to its return initialises
+				// that field like a store at the call would
+				for _, esc := range escapes {
+					c, isC := esc.(*ssa.Call)
+					if !isC || c.Call.StaticCallee() == nil || !m.InModule(c.Call.StaticCallee()) {
+						continue
+					}
+					for ai, a := range c.Call.Args {
+						if a != ssa.Value(al) {
+							continue
+						}
+						for _, f := range m.mustStoreFields(c.Call.StaticCallee(), ai) {
+							stores[f] = append(stores[f], c)
+						}
+					}
+				}
 				for i := 0; i < st.NumFields(); i++ {
 					ft := st.Field(i).Type().Underlying()
 					_, isPtr := ft.(*types.Pointer)
@@ -89,6 +105,14 @@ func (m *Model) NilableASTFields() *nilableInfo {
 					ni.all[id] = true
 					for _, esc := range escapes {
 						covered := false
+						for _, s := range stores[i] {
+							if s == esc {
+								covered = true // the helper call that stores the field
+							}
+						}
+						if covered {
+							continue
+						}
 						for _, s := range stores[i] {
 							if ctx.instrDominates(s, esc) {
 								covered = true
@@ -107,6 +131,56 @@ func (m *Model) NilableASTFields() *nilableInfo {
 		}
 	}
 	return ni
+}
+
+// mustStoreFields: the fields of its k-th parameter (a pointer to a struct) that fn stores on every path to a return.
+func (m *Model) mustStoreFields(fn *ssa.Function, k int) []int {
+	if fn.Blocks == nil || k >= len(fn.Params) {
+		return nil
+	}
+	ctx := m.Ctx(fn)
+	par := fn.Params[k]
+	byField := map[int][]ssa.Instruction{}
+	for _, b := range fn.Blocks {
+		for _, in := range b.Instrs {
+			st, ok := in.(*ssa.Store)
+			if !ok {
+				continue
+			}
+			fa, ok := st.Addr.(*ssa.FieldAddr)
+			if !ok || fa.X != ssa.Value(par) {
+				continue
+			}
+			if c, isC := st.Val.(*ssa.Const); isC && c.IsNil() {
+				continue
+			}
+			byField[fa.Field] = append(byField[fa.Field], st)
+		}
+	}
+	var out []int
+	for f, sts := range byField {
+		all := true
+		for _, b := range fn.Blocks {
+			ret, ok := b.Instrs[len(b.Instrs)-1].(*ssa.Return)
+			if !ok {
+				continue
+			}
+			dom := false
+			for _, s := range sts {
+				if ctx.instrDominates(s, ret) {
+					dom = true
+				}
+			}
+			if !dom {
+				all = false
+			}
+		}
+		if all {
+			out = append(out, f)
+		}
+	}
+	sort.Ints(out)
+	return out
 }
 
 func (ni *nilableInfo) names() []string {
